@@ -21,7 +21,7 @@ structure Link where
 structure Net where
   nodes : List Node
   links : List Link
-  /-- worker tasks dispatched and not yet answered: (node index, seqNo, input) -/
+  /-- unused (the outstanding worker tasks live in the parallel stage's own state, `PMapSt.outst`) -/
   tasks : List (Nat × Nat × Val) := []
   deriving Repr, Inhabited
 
@@ -31,8 +31,8 @@ inductive Pick where
   | down (i : Nat)
   /-- node `i` handles the oldest request/cancel of link `i` -/
   | up (i : Nat)
-  /-- the worker holding the `j`-th outstanding task replies -/
-  | result (j : Nat)
+  /-- the worker of parallel stage `i` holding the task with seqNo `q` replies -/
+  | result (i q : Nat)
   deriving Repr, Inhabited, DecidableEq
 
 def updLink (links : List Link) (i : Nat) (f : Link → Link) : List Link :=
@@ -56,13 +56,7 @@ def Net.deliver (net : Net) (i : Nat) (ev : Ev) : Net :=
       else updLink links1 (i - 1) (fun l => { l with upq := l.upq ++ r.2.up })
     { nodes := net.nodes.set i r.1,
       links := links2,
-      tasks := net.tasks ++ r.2.tasks.map (fun t => (i, t.1, t.2)) }
-
-/-- the worker function of node `i` (only parallel stages have one) -/
-def Net.workerFn (net : Net) (i : Nat) : Val → Except Err Val :=
-  match net.nodes[i]? with
-  | some (.pmap _ _ k bad e _) => parFn k bad e
-  | _ => fun _ => .error typeErr
+      tasks := net.tasks }
 
 /-- one scheduler step; `none` when the pick is not enabled (nothing to handle, or the receiver has stopped) -/
 def Net.step (net : Net) : Pick → Option Net
@@ -86,13 +80,14 @@ def Net.step (net : Net) : Pick → Option Net
         if !net.aliveAt i then none else
         let net1 := { net with links := updLink net.links i (fun l => { l with upq := rest }) }
         some (net1.deliver i (.up u))
-  | .result j =>
-    match net.tasks[j]? with
-    | none => none
-    | some (i, q, v) =>
-      if !net.aliveAt i then none else
-      let net1 := { net with tasks := net.tasks.eraseIdx j }
-      some (net1.deliver i (.result q (net.workerFn i v)))
+  | .result i q =>
+    match net.nodes[i]? with
+    | some (.pmap _ _ k bad e s) =>
+      if !s.alive then none else
+      match s.outst.find? (fun t => t.1 == q) with
+      | some t => some (net.deliver i (.result q (parFn k bad e t.2)))
+      | none => none
+    | _ => none
 
 /-- run a list of picks, skipping the ones that are not enabled -/
 def Net.run (net : Net) : List Pick → Net
@@ -167,10 +162,11 @@ def choose (net : Net) (holdSink : Bool) : Option Pick :=
   match scan n with
   | some p => some p
   | none =>
-    -- the first outstanding task whose stage is still running
-    match net.tasks.findIdx? (fun t => net.aliveAt t.1) with
-    | some j => some (.result j)
-    | none => none
+    -- the oldest outstanding task of the first running parallel stage that has one
+    (net.nodes.zipIdx.findSome? fun (nd, i) =>
+      match nd with
+      | .pmap _ _ _ _ _ s => if s.alive then s.outst.head?.map (fun t => Pick.result i t.1) else none
+      | _ => none)
 
 def runPolicy (holdSink : Bool) : Nat → Net → Net
   | 0, net => net
